@@ -1,6 +1,11 @@
 import RV.Model.TinyLFU
 import RV.Proofs.SketchSize
 import RV.Proofs.Bloom
+/-!
+TinyLFU lemmas (C18): the estimate is `sketch + doorkeeper bit`; one recorded access raises the
+key's estimate by one up to 16 and lowers nobody's; reset / clear; the reset period as an
+invariant `0 ≤ incrs < resetAt` on the int64 words.
+-/
 namespace RV.TinyLFU
 open Gen.TinyLFU
 
